@@ -117,7 +117,7 @@ def tie(ctx, broken):
     R.apply_monitor(ctx, out, R.mon_c03)
     R.apply_monitor(ctx, out, R.mon_c03_unspent)          # open known finding, reported separately so that it hides nothing
     L.tie_loop(ctx, broken, out, "c03")                 # gen/Src_loop.v on every recorded iteration (translator validation)
-    R.apply_monitor(ctx, out, L.mon_loop)
+    L.apply_mon_loop(ctx, out, broken)
     B.run_level_tie(ctx, broken, out, "c03")
     witnesses(ctx, broken, out)
     B.component_tie(ctx, broken, 300 if ctx.quick else 3000)
@@ -144,4 +144,4 @@ def replay(ctx, rp):
     r = rp["replay"]
     if r.get("kind") == "init":
         return B.replay_init(r["spec"])
-    return R.generic_replay(ctx, rp, [R.mon_c03, R.mon_c03_unspent, L.mon_loop])
+    return R.generic_replay(ctx, rp, [R.mon_c03, R.mon_c03_unspent, L.mon_loop_property("C03")])
